@@ -94,6 +94,227 @@ def width_form(jm, c):
     return ("other", e.get("k"))
 
 
+class Unknown(Exception):
+    pass
+
+
+def _wrap(v, bits):
+    v &= (1 << bits) - 1
+    return v - (1 << bits) if v >> (bits - 1) else v
+
+
+def jconc(e, vals):
+    """value of a javaeval expression under concrete values of its symbols, with Java's integer semantics"""
+    if isinstance(e, sym.Cond):
+        op = e.op
+        if op in ("true", "false"):
+            return op == "true"
+        if op == "and":
+            return all(jconc(a, vals) for a in e.args)
+        if op == "or":
+            return any(jconc(a, vals) for a in e.args)
+        if op == "not":
+            return not jconc(e.args[0], vals)
+        if op in ("eq", "ne", "lt", "le", "gt", "ge"):
+            a, b = jconc(e.args[0], vals), jconc(e.args[1], vals)
+            return {"eq": a == b, "ne": a != b, "lt": a < b, "le": a <= b, "gt": a > b, "ge": a >= b}[op]
+        raise Unknown(op)
+    if not isinstance(e, sym.E):
+        raise Unknown(type(e).__name__)
+    op = e.op
+    if op == "const":
+        return e.args[0]
+    if op == "sym":
+        if e.args[0] not in vals:
+            raise Unknown(e.args[0])
+        return vals[e.args[0]]
+    if op == "sext":
+        return jconc(e.args[0], vals)
+    nb = javaeval.BITS.get(e.ty)
+    if op == "cast":
+        v = jconc(e.args[0], vals)
+        return _wrap(v, nb) if nb and e.ty != "bool" else v
+    if op == "ite":
+        return jconc(e.args[1], vals) if jconc(e.args[0], vals) else jconc(e.args[2], vals)
+    if op in ("add", "sub", "mul", "and", "or", "xor", "shl", "shr", "div", "rem"):
+        a, b = jconc(e.args[0], vals), jconc(e.args[1], vals)
+        nb = nb or 32
+        if op == "shl":
+            v = a << (b & (nb - 1))
+        elif op == "shr":
+            v = (a & ((1 << nb) - 1)) >> (b & (nb - 1))
+        elif op == "div":
+            if b == 0:
+                raise Unknown("div0")
+            v = abs(a) // abs(b) * (1 if (a < 0) == (b < 0) else -1)
+        elif op == "rem":
+            if b == 0:
+                raise Unknown("div0")
+            v = abs(a) % abs(b) * (1 if a >= 0 else -1)
+        else:
+            v = {"add": a + b, "sub": a - b, "mul": a * b, "and": a & b, "or": a | b, "xor": a ^ b}[op]
+        return _wrap(v, nb)
+    raise Unknown(op)
+
+
+def _syms(e, out):
+    if isinstance(e, sym.Cond):
+        for a in e.args:
+            _syms(a, out)
+    elif isinstance(e, sym.E):
+        if e.op == "sym":
+            out.add(e.args[0])
+        else:
+            for a in e.args:
+                if isinstance(a, (sym.E, sym.Cond)):
+                    _syms(a, out)
+    return out
+
+
+def check_dispatch(rep, jm, r, decl, c, ev, where, stats):
+    """(d) the if-chain that hands the payload to a child's fromPayload is evaluated -- first match, Java integer
+    semantics, on concrete header values composed through the parser's own (already compared) bit layout -- on every cell of
+    the partition induced by the children's constraint values and static sizes, and compared with the reference
+    selection.  A Java parent always takes the payload length into account, so the reference does too: a child whose own
+    part has a static size is a candidate only for that length; the fallback child stands for `no child`."""
+    import itertools
+    from . import c06
+    by_class = {}
+    for k in r.children(decl):
+        # children the Java backend was not asked to generate (outside its supported constructs) are not subjects
+        cn = next((n for n in jm.classes if "." not in n and javaeval.camel(n) == javaeval.camel(k)), None)
+        if cn is not None:
+            by_class[cn] = k
+    kids = list(by_class.values())
+    cls_of = {k: cn for cn, k in by_class.items()}
+    chain = list(ev.dispatch)
+    if not kids and not chain:
+        return
+    fallback = "Unknown" + c["name"]
+    for cond, cls in chain:
+        if cls != fallback and cls not in by_class:
+            rep.add("C19|java|dispatch|unknown-child", f"{c['name']} hands its payload to {cls}, which is not a direct child "
+                    f"of {decl}", where)
+            return
+    fields = c06.data_fields(r, decl)
+    cases = []
+    for x in kids:
+        cs = {k: v for k, v in r.decls[x].constraints.items() if k in fields}
+        cases.append((x, x, cs, c06.size_class(r, x)))
+    reach = {cls for _c, cls in chain}
+    for (x, _d, cs, sz) in cases:
+        if (cs or sz[0] == "static") and cls_of[x] not in reach:
+            rep.add("C19|java|dispatch|child-never-selected", f"{c['name']} never hands its payload to {x}, whose constraints "
+                    f"or static size select it", where)
+            return
+    # partition
+    dom = {}
+    for (x, _d, cs, sz) in cases:
+        for k, v in cs.items():
+            dom.setdefault(k, {c06.OTHER}).add(v)
+    lens = {0}
+    for (x, _d, cs, sz) in cases:
+        if sz[0] == "static":
+            lens.add(sz[1])
+    lens.add(max(lens) + 3)
+
+    def concrete(k, v):
+        f = fields[k]
+        enum = f.type if f.type in r.enums else None
+        if v is not c06.OTHER and v != c06.OTHER:
+            return r.tag_value(enum, v) if isinstance(v, str) else v
+        used = {concrete(k, u) for u in dom[k] if u != c06.OTHER}
+        w = r.field_width(f) or 8
+        for cand in range(min(1 << w, 4096)):
+            if cand not in used:
+                return cand
+        return None
+    # what the parser reads: chunks before the payload
+    pre, static_prefix, tail = [], 0, None
+    for it in ev.items:
+        if it["k"] == "payload":
+            tail = it["shape"].get("tail", 0) if it["shape"].get("k") == "rest" else 0
+            break
+        pre.append(it)
+        if static_prefix is None:
+            continue
+        if it["k"] == "chunk":
+            static_prefix += it["n"]
+        elif it["k"] == "array" and (it.get("shape") or {}).get("k") in ("count", "size"):
+            pass        # count and size fields are given the value 0 below: the array is empty
+        elif it["k"] == "array" and (it.get("shape") or {}).get("k") == "static" and it.get("elem_bytes") is not None:
+            static_prefix += it["shape"]["n"] * it["elem_bytes"]
+        elif it["k"] == "typedef" and it.get("static") is not None:
+            static_prefix += it["static"] // 8
+        else:
+            static_prefix = None
+    wanted = set()
+    for cond, _cls in chain:
+        if cond is not None:
+            _syms(cond, wanted)
+    keys = sorted(dom)
+    n_cells = undecided = 0
+    for combo in itertools.islice(itertools.product(*[sorted(dom[k], key=str) for k in keys]), 4000):
+        assign = dict(zip(keys, combo))
+        conc = {k: concrete(k, v) for k, v in assign.items()}
+        if any(v is None for v in conc.values()):
+            continue
+        for L in sorted(lens):
+            vals = {}
+            for it in pre:
+                if it["k"] != "chunk" or it.get("sym") is None:
+                    continue
+                v = 0
+                for i, b in enumerate(it["bits"]):
+                    bit = 0
+                    if isinstance(b, tuple) and b:
+                        if b[0] == "f" and b[1] in conc:
+                            bit = (conc[b[1]] >> b[2]) & 1
+                        elif b[0] == "f" and b[1] in wanted_fields(r, decl, fields):
+                            bit = 0
+                        elif b[0] == "size" and b[1] in ("_payload_", "_body_"):
+                            bit = ((L + (b[2] or 0)) >> b[3]) & 1
+                        elif b[0] == "fixed":
+                            bit = b[1] or 0
+                    v |= bit << i
+                vals[it["sym"].args[0]] = _wrap(v, it["n"] * 8)
+            if static_prefix is not None and ev.input is not None and isinstance(ev.input.total, sym.E) \
+                    and ev.input.total.op == "sym":
+                vals[ev.input.total.args[0]] = static_prefix + L + (tail or 0)
+            got = None
+            try:
+                for cond, cls in chain:
+                    if cond is None or jconc(cond, vals):
+                        got = cls
+                        break
+            except Unknown:
+                undecided += 1
+                continue
+            n_cells += 1
+            got_x = None if got in (None, fallback) else by_class[got]
+            strong, weak = c06.ref_expected(cases, assign, L, True)
+            ok = (got_x in strong) if strong else (got_x is None or got_x in weak)
+            if not ok:
+                cause = ""
+                if got_x is None and all(not cs_ and sz_[0] != "static" for (x_, _d, cs_, sz_) in cases if x_ in strong):
+                    cause = "|unconstrained-dynamic-child"
+                rep.add("C19|java|dispatch|wrong-child" + ("|fallback-for-matching" if got_x is None else "") + cause,
+                        f"{c['name']} dispatches to {got_x or 'the fallback child'} for {assign} with a payload of {L} octets; "
+                        f"the reference selects {sorted(strong) or 'no child'}", where,
+                        {"cell": {k: str(v) for k, v in assign.items()}, "len": L, "generated": got_x, "reference": sorted(strong)})
+                stats["dispatch"] += n_cells
+                return
+    stats["dispatch"] += n_cells
+    stats["dispatch_undecided"] += undecided
+    if chain and kids and n_cells == 0:
+        rep.notes.append(f"{where}: no cell of {c['name']}'s child dispatch could be evaluated (dynamic fields before the payload)")
+        stats["dispatch_unevaluated"] += 1
+
+
+def wanted_fields(r, decl, fields):
+    return fields
+
+
 def check_width(rep, jm, r, decl, c, where, stats):
     """(e) width() -- what parsers advance by and size-delimited loops count down with -- is the encoded size of the
     object: a literal equal to the reference's static size of the whole declaration (inherited fields included), or the
@@ -173,9 +394,8 @@ def check_decl(rep, name, jm, r, decl, c, stats, st):
                                         "parser_items": [x["k"] for x in ev.items][:8]})
                     stats["items"] += cm.n
         # (d) dispatch
-        kids = r.children(decl) if hasattr(r, "children") else []
-        if ev.dispatch:
-            stats["dispatch"] += len(ev.dispatch)
+        if not any(o.kind == "unmodelled" and not o.ok for o in ev.obls) and ev.always_fails is None:
+            check_dispatch(rep, jm, r, decl, c, ev, where, stats)
     check_width(rep, jm, r, decl, c, where, stats)
     # ---- serialize
     sm = None
@@ -279,7 +499,7 @@ def run(rep, tier, seed):
     g = rc.gen(tier, seed)
     d, idx = stages.stage_java(tier, seed)
     stats = {"modules": 0, "functions": 0, "obligations": 0, "discharged": 0, "items": 0, "undecided": 0, "helpers": 0,
-             "serializers": 0, "sizes": 0, "widths": 0, "dispatch": 0, "skipped_modules": 0, "classes": 0}
+             "serializers": 0, "sizes": 0, "widths": 0, "dispatch": 0, "dispatch_undecided": 0, "dispatch_unevaluated": 0, "skipped_modules": 0, "classes": 0}
     for name in sorted(idx):
         info = idx[name]
         if info["rc"] != 0:
@@ -326,10 +546,12 @@ def run(rep, tier, seed):
         "programs": stats["functions"], "disagreements_checked": stats["items"] + stats["obligations"] + stats["helpers"],
         **stats, "samples": SAMPLES[:4],
         "explanation": "javac syntax trees of every emitted Java class: helpers bit by bit, parsers vs the reference layout "
-                       "with sign-extension obligations, serializers vs the reference layout, fieldWidth vs bytes written",
+                       "with sign-extension obligations, serializers vs the reference layout, fieldWidth vs bytes written, width() forms, "
+                       "child dispatch chains evaluated per cell against the reference selection",
     })
     rep.assumptions += ["exceptions (BufferUnderflow, IllegalArgument, NegativeArraySize, Arithmetic) are rejections, which the "
                         "property allows; only wrong objects and wrongly rejected valid encodings are violations",
                         "classes in files javac reports errors for are skipped (reported by C10's javac witness)"]
-    if stats["functions"] < 150:
-        rep.add("C19|coverage-floor", f"only {stats['functions']} functions evaluated (floor 150)", "corpus")
+    if stats["functions"] < 1000 or stats["dispatch"] < 400 or stats["widths"] < 500:
+        rep.add("C19|coverage-floor", f"only {stats['functions']} functions / {stats['dispatch']} dispatch cells / "
+                f"{stats['widths']} width() bodies evaluated (floors 1000 / 400 / 500)", "corpus")
